@@ -42,6 +42,11 @@ def explore(ctx, d, gates, losses, meassets, inputs, depth, simulate=None, seed=
     mod = OR.spec_module("MCPO", d, gates, inputs, losses=losses, meassets=meassets)
     res = run_tlc("MCPO", "MCPO.cfg", generated={"MCPO.tla": mod, "MCPO.cfg": CFG % (d, depth)}, timeout=3000,
                   simulate=simulate, depth=(depth + 1) if simulate else None, seed=seed if simulate else None)
+    # 32-bit integers: deep behaviours with many photons can overflow in the exact norm (a TLC error, never silent): one step less, recorded
+    while "Overflow when computing" in res.out and depth > 1 and not simulate:
+        depth -= 1
+        ctx.notes.setdefault("optics_overflow_reductions", []).append({"d": d, "depth_reduced_to": depth})
+        res = run_tlc("MCPO", "MCPO.cfg", generated={"MCPO.tla": mod, "MCPO.cfg": CFG % (d, depth)}, timeout=3000)
     if res.violated:
         ctx.report("spec:PqOptics:" + ",".join(map(str, res.violated)), "PqOptics violates its own theorem (oracle broken)", res.out[-2000:])
         return []
